@@ -93,14 +93,32 @@ def r1(ctx):
             if caller.key in allowed:
                 ctx.ok("C02.R1", caller, call, "caller of Rank.%s: %s"
                        % (name, allowed[caller.key]))
-            elif caller.module.rel.startswith("graphics/") and False:
-                pass
+            elif _only_called_from(ctx, caller, set(allowed)):
+                ctx.ok("C02.R1", caller, call, "caller of Rank.%s: a helper "
+                       "used only by %s" % (name, sorted(allowed)))
             else:
                 ctx.bad("C02.R1", caller, call,
                         "new caller of Rank.%s: rank membership changes at a "
                         "site none of the pairing rules (registration<->"
                         "insertion, removal<->deregistration, rebuild) covers"
                         % name)
+
+
+def _only_called_from(ctx, func, allowed_keys, depth=0):
+    """`func` is a plain helper every call site of which lies in one of the
+    allowed callers (or in another such helper): extracting code into a
+    helper does not create a new place where membership changes."""
+    if depth > 3 or func.cls is not None and func.name.startswith("__"):
+        return False
+    sites = ctx.eff.call_sites.get(func, [])
+    if not sites:
+        return False
+    for caller, call, tg in sites:
+        if caller.key in allowed_keys:
+            continue
+        if not _only_called_from(ctx, caller, allowed_keys, depth + 1):
+            return False
+    return True
 
 
 # ---------------------------------------------------------------------------
@@ -301,7 +319,7 @@ def _dropped_is_childless(ctx, f, m, base):
             cands.add(n.targets[0].id)
     cond = [frozenset()]
     for t, pol in guards(m.stmt, asserts=False):
-        d = pat.dnf(t, pol)
+        d = pat.bool_dnf(ctx, f, t, pol)
         if d is None:
             raise AnalysisError("C02.R3: drop condition too large for DNF")
         cond = [a | b for a in cond for b in d]
@@ -336,19 +354,8 @@ def _deregisters(ctx, f, m, base):
     if pb is None:
         return False
     blk, idx = pb[0], pb[1]
-    want = "%s.getOwner().getNextRank()" % base
-    for st in blk[idx + 1:]:
-        for n in ast.walk(st):
-            if isinstance(n, ast.Call) and isinstance(n.func, ast.Attribute) \
-                    and n.func.attr == "pop" and not n.args:
-                if pat.inline(ctx, f, n.func.value).replace(" ", "") == want:
-                    gs = [(pat.inline(ctx, f, t).replace(" ", ""), pol)
-                          for t, pol in atomic_guards(enclosing_stmt(n), stop=None)]
-                    has_owner = ("%s.getOwner()isnotNone" % base, True) in gs or \
-                        ("%s.getOwner()isNone" % base, False) in gs
-                    if has_owner:
-                        return True
-    return False
+    from ..sites import rank_pops
+    return any(ok for _, ok in rank_pops(ctx, f, blk[idx + 1:], base))
 
 
 # ---------------------------------------------------------------------------
@@ -506,7 +513,8 @@ def r5(ctx):
     fiber_p = f.params[1]
     level_p = f.params[2] if len(f.params) > 2 else "level"
     app = [c for c in pat.calls(f, attr="append")
-           if text(c.func.value) == "self.ranks[%s]" % level_p and c.args
+           if pat.inline(ctx, f, c.func.value).replace(" ", "") ==
+           "self.ranks[%s]" % level_p and c.args
            and text(c.args[0]) == fiber_p]
     if app and not [t for t, pol in guards(enclosing_stmt(app[0]))
                     if not isinstance(t, ast.Call)]:
